@@ -694,4 +694,48 @@ pub fn run(ctx: &mut Ctx) {
         ctx.rec.sample("determinism-case", &format!("{} :: {}", c.init.e[0], c.init.summary()));
     }
     ctx.rec.checkpoint();
+    // (d') thorough tier, one shard of the optimised build: walk the id space past 2^32 on 16 threads
+    // (4.3 * 10^9 creations): an id counter narrower than usize wraps there, and then some thread sees an
+    // id that is not larger than its previous one
+    if mode != "tsan" && !ctx.quick() && ctx.profile == "release" && ctx.shard == 0 && !ctx.is_fuzz() {
+        use pushr::push::graph::Node;
+        let per_thread: u64 = (1u64 << 32) / 16 + (1 << 16);
+        ctx.rec.case_marker(9_500_000, "node id space walk past 2^32");
+        let hs: Vec<_> = (0..16)
+            .map(|_| {
+                std::thread::spawn(move || {
+                    let mut last = Node::new(0).get_id();
+                    let first = last;
+                    for k in 0..per_thread {
+                        let id = Node::new(0).get_id();
+                        if id <= last {
+                            return Err((k, last, id));
+                        }
+                        last = id;
+                    }
+                    Ok((first, last))
+                })
+            })
+            .collect();
+        // keep the supervisor's progress marker moving while the threads work
+        let mut tick = 0u64;
+        while hs.iter().any(|h| !h.is_finished()) {
+            std::thread::sleep(std::time::Duration::from_secs(5));
+            tick += 1;
+            ctx.rec.case_marker(9_500_000 + tick, &format!("node id space walk past 2^32, {} s", tick * 5));
+        }
+        let mut maxid = 0usize;
+        for h in hs {
+            match h.join() {
+                Ok(Ok((_f, l))) => maxid = maxid.max(l),
+                Ok(Err((k, last, id))) => ctx.rec.violation("C14", "node-ids|not-increasing-per-thread", &format!("id space walk: after {} creations on one thread the id went from {} to {} (ids handed out twice in one process)", k, last, id), ""),
+                Err(_) => ctx.rec.violation("C14", "node-ids|thread-died", "id space walk thread panicked", ""),
+            }
+        }
+        ctx.rec.count("id_space_walk_creations", per_thread * 16);
+        ctx.rec.max("largest_node_id_seen", maxid as u64);
+        ctx.rec.cover("ids|space-walk");
+    }
+    ctx.rec.checkpoint();
 }
+
